@@ -117,11 +117,38 @@ static bool build_state(C& c, const Abs& t, int64_t last_now)
     for (size_t p = 0; p < t.n; ++p)
         for (uint64_t u = 1; u < t.cnt[p]; ++u) c.find(t.k[p]);
 #elif T_POLICY == P_LFUDA
-    // entries are written at the time of their final age, oldest first; counts are raised at that same instant
+    // entries with a positive count are written at the time of their final age and raised to their count by lookups at that
+    // same instant; an entry with count 0 (only aging produces it) is written tick+1 before its final age and decays at a
+    // dynamically_age() call issued at that age.  Events run in time order (ties: age-list order of the target state).
     {
-        size_t ord[AMAX]; for (size_t p = 0; p < t.n; ++p) ord[p] = p;
-        for (size_t i = 0; i < t.n; ++i) for (size_t j = i + 1; j < t.n; ++j) if (t.age[ord[j]] < t.age[ord[i]] || (t.age[ord[j]] == t.age[ord[i]] && t.o2[ord[j]] < t.o2[ord[i]])) { size_t x = ord[i]; ord[i] = ord[j]; ord[j] = x; }
-        for (size_t i = 0; i < t.n; ++i) { size_t p = ord[i]; dummies_room(c); at(t.age[p]); x_insert(c, t.k[p], t.v[p], 3, 0); for (uint64_t u = 1; u < t.cnt[p]; ++u) c.find(t.k[p]); }
+        struct Evt { int64_t time; int kind; size_t p; }; // kind 0: insert only, 1: dynamically_age(), 2: insert + lookups
+        Evt    evs[2 * AMAX + 2];
+        size_t ne = 0;
+        for (size_t p = 0; p < t.n; ++p)
+        {
+            if (t.cnt[p] == 0)
+            {
+                evs[ne++] = Evt{t.age[p] - cfg_tick - 1, 0, p};
+                bool dup = false;
+                for (size_t i = 0; i < ne; ++i) if (evs[i].kind == 1 && evs[i].time == t.age[p]) dup = true;
+                if (!dup) evs[ne++] = Evt{t.age[p], 1, p};
+            }
+            else
+                evs[ne++] = Evt{t.age[p], 2, p};
+        }
+        for (size_t i = 0; i < ne; ++i)
+            for (size_t j = i + 1; j < ne; ++j)
+                if (evs[j].time < evs[i].time || (evs[j].time == evs[i].time && t.o2[evs[j].p] < t.o2[evs[i].p])) { Evt x = evs[i]; evs[i] = evs[j]; evs[j] = x; }
+        for (size_t i = 0; i < ne; ++i)
+        {
+            const size_t p = evs[i].p;
+            if (evs[i].time < 0) return false;
+            at(evs[i].time);
+            if (evs[i].kind == 1) { c.dynamically_age(); continue; }
+            dummies_room(c);
+            x_insert(c, t.k[p], t.v[p], 3, 0);
+            if (evs[i].kind == 2) for (uint64_t u = 1; u < t.cnt[p]; ++u) c.find(t.k[p]);
+        }
     }
 #elif T_POLICY == P_NONE /* ut_map / ut_set: uniform ttl fixed at construction; written at deadline - ttl, in ttl order */
     for (size_t p = 0; p < t.n; ++p) { at(t.d[p] - t.ttl); x_insert(c, t.k[p], t.v[p], 3, 0); }
@@ -280,6 +307,22 @@ static int run_state_mode(FILE* f)
         ++ncalls;
     if (ncalls == 0) return 2;
     { char w[16]; if (fscanf(f, " %15s", w) == 1 && !strcmp(w, "draws")) { for (int i = 0; i < 16; ++i) if (fscanf(f, " %llu", &g_draws[i]) != 1) break; } }
+#if T_POLICY == P_LFUDA
+    // a count of 0 needs an aging point more than a tick after the entry was written; the library only sees time
+    // differences, so the whole counterexample (ages, clock, calls) is shifted forward where the written time would be negative
+    {
+        long long need = 0;
+        for (size_t p = 0; p < t.n && p < AMAX; ++p)
+            if (t.cnt[p] == 0 && t.age[p] - (tick_ > 0 ? tick_ : 5) - 1 < 0 && (tick_ > 0 ? tick_ : 5) + 1 - t.age[p] > need) need = (tick_ > 0 ? tick_ : 5) + 1 - t.age[p];
+        if (need > 0)
+        {
+            for (size_t p = 0; p < t.n && p < AMAX; ++p) t.age[p] += need;
+            last_now_ += need;
+            for (int ci = 0; ci < ncalls; ++ci) calls[ci].now += need;
+            printf("state-mode: lfuda counterexample shifted forward by %lld ticks (count-0 entries need an earlier aging point)\n", need);
+        }
+    }
+#endif
     bool reached = false;
     int  worst = 0;
     for (g_variant = 0; g_variant <= 2; ++g_variant)
